@@ -1,5 +1,6 @@
 pub mod cls;
 pub mod deriv;
+pub mod ends;
 pub mod gen;
 pub mod model;
 pub mod re;
